@@ -44,3 +44,47 @@ Example c15_pinned_refuted :
   register_all [] [1;2;3;4;5;6;7;8]%N (pinned_contacts [a] [a]) = None /\
   register_all [] [1;2;3;4;5;6;7;8]%N (union_contacts [a] [a]) = Some [(a, [1;2;3;4;5;6;7;8]%N)].
 Proof. vm_compute. split; reflexivity. Qed.
+
+(* ---- the socket layer between the bootstrap exchanges and the handler (model/Socket.v, replayed against the real socket) ---- *)
+From BT Require Import model.Socket proofs.Socket_Facts.
+
+(* a received datagram is handed to a pending exchange exactly when it decodes and its (source address, transaction id) is
+   pending; the key is consumed by that delivery *)
+Theorem c15_socket_deliver_iff_pending : forall p src data k,
+  snd (sstep_sock p (SRecv src data)) = SRToWaiter k <->
+  exists m, decode_msg data = Some m /\ k = (src, m_tid m) /\ In k p.
+Proof. exact deliver_iff_pending. Qed.
+
+(* ... so a second copy of the same datagram goes to the handler (where it is an unsolicited message), never to the
+   exchange again: the `assert!(self.message.is_none())` of make_ready cannot fail *)
+Theorem c15_socket_duplicate_goes_to_handler : forall p src data k,
+  snd (sstep_sock p (SRecv src data)) = SRToWaiter k ->
+  snd (sstep_sock (fst (sstep_sock p (SRecv src data))) (SRecv src data)) = SRToHandler.
+Proof. exact duplicate_goes_to_handler. Qed.
+
+(* nothing decodable is swallowed *)
+Theorem c15_socket_decodable_not_lost : forall p src data m,
+  decode_msg data = Some m ->
+  snd (sstep_sock p (SRecv src data)) = SRToHandler \/ snd (sstep_sock p (SRecv src data)) = SRToWaiter (src, m_tid m).
+Proof. exact decodable_not_lost. Qed.
+
+(* the assertion of `responded` fails exactly when the key is still pending; a run whose registrations are fresh (no
+   (destination, transaction id) pair registered while pending -- C19's discipline, C15's first-round theorem) never panics *)
+Theorem c15_socket_panic_iff_double_register : forall p k, snd (sstep_sock p (SReg k)) = SRPanic <-> In k p.
+Proof. exact panic_iff_double_register. Qed.
+
+Theorem c15_socket_no_panic_when_fresh : forall evs p, fresh_regs p evs -> ~ In SRPanic (snd (srun_sock p evs)).
+Proof. exact no_panic_when_fresh. Qed.
+
+Print Assumptions c15_socket_deliver_iff_pending.
+Print Assumptions c15_socket_duplicate_goes_to_handler.
+Print Assumptions c15_socket_decodable_not_lost.
+Print Assumptions c15_socket_panic_iff_double_register.
+Print Assumptions c15_socket_no_panic_when_fresh.
+
+Example c15_socket_nonvacuous :
+  let a := mkAddr false 167772161 6881 in
+  let ping := hex "64313a7264323a696432303a303132333435363738396162636465666768696a65313a74323a6161313a79313a7265" in
+  snd (srun_sock [] [SReg (a, [97; 97]%N); SRecv a ping; SRecv a ping; SReg (a, [97; 97]%N); SReg (a, [97; 97]%N)])
+  = [SRNone; SRToWaiter (a, [97; 97]%N); SRToHandler; SRNone; SRPanic].
+Proof. vm_compute. reflexivity. Qed.
